@@ -360,7 +360,7 @@ def svg_path_points(p, i):
 def link(ctx, R):
     P = ctx.P
     for d in DIRECTIONS:
-        for chain in (False, True):
+        for chain in ((False, True, 2) if getattr(ctx, "params", None) and ctx.params.get("big_instances") else (False, True)):
             ps, pt = emit.pipe(ctx, SVG, d, n=2, chain=chain), emit.pipe(ctx, TEX, d, n=2, chain=chain)
             g, doc, r2 = _tex(pt, "add_links")
             texs = [x for x in doc if "\\draw" in flat(x)[0]]
